@@ -1448,6 +1448,12 @@ func plRunScenario(w *plWorld, sc *plScenario, amap map[string]*plDef, emit func
 			cur.woSdf = d.p[16:]
 		}
 		stalled = guarded(len(p), func() { g.OnReadRtmpAvMsg(msg) })
+		if !stalled {
+			// the publisher's read loop reuses its buffer for the next message: what lal keeps must be its own copy
+			for i := range p {
+				p[i] ^= 0x5a
+			}
+		}
 		return
 	}
 	for _, st := range sc.Steps {
